@@ -172,6 +172,7 @@ theorem recoverStep_okPen (c p : Addr) (pool : Pool) (ik : Nat) (s : State) (f :
   · rename_i fm hfm
     -- whichever way the report was updated, it still names the provider of the message
     have hfp : fm.provider = p := by
+      unfold recoverDecision at hfm
       split at hfm
       · cases hfm; exact hprov.symm
       · split at hfm
